@@ -5,13 +5,20 @@ from oracle_util import *  # noqa
 from tokutil import *  # noqa
 
 ID = "C01"
-LEAN_MODULE = None
+LEAN_MODULE = ["SCoda.Props.C01", "SCoda.Props.C01Glue", "SCoda.Props.C02"]
 CLAUSES = [
-    ("tokenisation of a valid piece succeeds and every emitted token is in the vocabulary", None),
-    ("decode(encode(tokens)) = tokens", None),
-    ("detokenise returns, track for track, the same notes (pitch, onset, duration) with binned velocity", None),
-    ("on the same bar grid", None),
-    ("with total duration rounded up to the end of the last bar", None),
+    ("every token tokenise emits is in the vocabulary, and decode(encode(tokens)) = tokens",
+     ["SCoda.C02.tokenise_closed", "SCoda.C02.decode_encode_list"]),
+    ("whenever tokenise accepts a piece, detokenise of its tokens succeeds and emits, track for track, exactly the piece's notes "
+     "(pitch, onset, duration, binned velocity) in event order",
+     ["SCoda.C01.roundtrip", "SCoda.C01.roundtrip_tracks", "SCoda.C01.sim_partial", "SCoda.C01.dfold_detokenise", "SCoda.C01.dpart_seqs",
+      "SCoda.C01.applyRest_sync", "SCoda.C01.rel_init"]),
+    ("on the same bar grid: the bar ends emitted are exactly those the clock passes; the detokeniser's bar size after a signature token is the tokeniser's",
+     ["SCoda.C01.roundtrip", "SCoda.C01.capacity_scaled"]),
+    ("the statement without the positive-bar-capacity hypothesis is false (kernel-checked counter-example)", ["SCoda.C01.sim_statement_false"]),
+    ("glue: the merge/pairing code hands the core time-ordered events on track channels (EvsOk)", ["SCoda.C01.extract_evsOk"]),
+    ("tokenisation of every valid piece *succeeds* (the greedy rest decomposition never gets stuck under the grid condition; range checks pass)", None),
+    ("total duration rounded up to the end of the last bar (false for pieces with a tail: known finding D15; no partial theorem yet)", None),
 ]
 RULE = ("valid multi-track pieces (1-3 tracks, 1-5 bars, <=3 notes per bar and track, signature changes on bar lines, rests "
         "crossing bar lines, simultaneous notes across tracks) x configurations (all 16 flag combinations sampled, velocity "
